@@ -20,8 +20,8 @@ deriving DecidableEq, Repr
 
 /-- `$Chan` object (types.js:557-567).  `isNil` marks the single `$chanNil` object whose queues are the
     dummy `{length:0, push(){}, shift(){return undefined}, indexOf(){return -1}}` (types.js:568-569).
-    `hInit/hCommit/hRecv` are ghost histories (not in the JS): values whose send was initiated, values
-    that entered the channel (buffer or direct hand-off), values handed to receivers. -/
+    `hCommit/hRecv` are ghost histories (not in the JS): values that entered the channel (pushed to the
+    buffer, handed to a queued receiver, or pulled from a queued sender), values handed to receivers. -/
 structure Chan where
   isNil : Bool
   cap : Nat
@@ -29,14 +29,13 @@ structure Chan where
   sendQ : List Entry
   recvQ : List Entry
   closed : Bool
-  hInit : List Nat
   hCommit : List Nat
   hRecv : List Nat
 deriving Repr
 
 /-- `new $Chan(elem, capacity)` types.js:557-567 -/
 def Chan.make (cap : Nat) : Chan :=
-  { isNil := false, cap := cap, buf := [], sendQ := [], recvQ := [], closed := false, hInit := [], hCommit := [], hRecv := [] }
+  { isNil := false, cap := cap, buf := [], sendQ := [], recvQ := [], closed := false, hCommit := [], hRecv := [] }
 
 /-- `$chanNil = new $Chan(null, 0)` types.js:568 -/
 def Chan.nil : Chan := { Chan.make 0 with isNil := true }
